@@ -51,7 +51,7 @@ func TestC13HashToGroup(t *testing.T) {
 		name := "group." + ref.Name
 		sub := "hash/" + name
 		t.Run(name, func(t *testing.T) {
-			vlib.Check(t, vlib.N(40, 500), func(t *rapid.T) {
+			vlib.Check(t, vlib.N(40, 160), func(t *rapid.T) {
 				msg, dst, cls := drawMsgDST(t)
 				nu := rapid.Bool().Draw(t, "nonuniform")
 				vlib.Eval(sub)
@@ -117,7 +117,7 @@ func TestC13HashToGroup(t *testing.T) {
 		g := group.Ristretto255
 		ref := curves.Ed25519
 		sub := "hash/group.ristretto255"
-		vlib.Check(t, vlib.N(60, 600), func(t *rapid.T) {
+		vlib.Check(t, vlib.N(60, 240), func(t *rapid.T) {
 			msg, dst, cls := drawMsgDST(t)
 			vlib.Eval(sub)
 			vlib.Class(sub, cls)
@@ -154,7 +154,7 @@ func TestC13HashToGroup(t *testing.T) {
 		which := which
 		sub := "hash/bls12381." + which
 		t.Run("bls12381."+which, func(t *testing.T) {
-			vlib.Check(t, vlib.N(50, 500), func(t *rapid.T) {
+			vlib.Check(t, vlib.N(50, 200), func(t *rapid.T) {
 				msg, dst, cls := drawMsgDST(t)
 				enc := rapid.Bool().Draw(t, "encode")
 				vlib.Eval(sub)
